@@ -1,18 +1,23 @@
-"""Per-property configuration of ./check: make targets (the property's proof closure), driver, evidence text."""
+"""Per-property configuration of ./check, auto-discovered from tools/propcfg/cXX.py.
+Each propcfg module defines
+  CFG  = cfg('C10', refine=[...], extract='Ex_C10', driver='c10', rule=..., trusted=[...], assumptions=[...])
+  TEXT = (level text, DESIGN.md section, technique)      # used by tools/gen_manifest.py
+"""
+import glob, importlib.util, os
 
-def _p(prop, refine=(), extract=None, extra=(), driver=None, rule='', trusted=(), assumptions=()):
+
+def cfg(prop, refine=(), extract=None, extra=(), driver=None, rule='', trusted=(), assumptions=()):
     t = ['Props/%s.vo' % prop] + ['Refine/%s.vo' % r for r in refine] + list(extra)
     if extract:
         t.append('Extract/%s.vo' % extract)
     return {'targets': t, 'driver': driver, 'rule': rule, 'trusted_base': list(trusted), 'assumptions': list(assumptions)}
 
 
-PROPS = {
-    'C09': _p('C09', refine=['Refine_wire'], extract='Ex_C09', driver='c09',
-              rule='exhaustive new-format lengths 0..9000 (quick) / 0..70000 (thorough) + boundaries to 2^32-1; every first x second '
-                   'length octet; old-format tag x stored width x lengths across width boundaries; random partial chunkings; MPI bit '
-                   'lengths 0..700/4200 with min/max/random patterns + non-canonical decodes; all 256 counts; time boundaries; '
-                   'subpacket headers. distinct = distinct canonical (suite,input); all are non-error paths unless the suite is a decode sweep',
-              trusted=['Spec/Rfc4880_wire.v (RFC transcription)'],
-              assumptions=['Python runtime (bytearray slicing, int.to_bytes, datetime/calendar) reached only through the correspondence run']),
-}
+PROPS, TEXT = {}, {}
+for _p in sorted(glob.glob(os.path.join(os.path.dirname(os.path.abspath(__file__)), 'propcfg', 'c*.py'))):
+    _spec = importlib.util.spec_from_file_location('propcfg_' + os.path.basename(_p)[:-3], _p)
+    _m = importlib.util.module_from_spec(_spec)
+    _spec.loader.exec_module(_m)
+    _id = os.path.basename(_p)[:-3].upper()
+    PROPS[_id] = _m.CFG
+    TEXT[_id] = _m.TEXT
